@@ -49,6 +49,18 @@ def run_variant(v, repo, tier="quick"):
         ev = tmp / "evidence"
         env = dict(os.environ, GSVERIF_EVIDENCE_DIR=str(ev), PYTHONPATH=str(VERIF))
         t0 = time.time()
+        if v["property"] == "*":
+            # a behaviour-preserving rewrite: every registered check must stay silent
+            props = [c["property_id"] for c in json.loads((VERIF / "MANIFEST.json").read_text())["checks"]]
+            bad = []
+            for pid in props:
+                p = subprocess.run([sys.executable, "-m", "gsverif", "check", pid, "--tier", v.get("tier", tier), "--repo", str(tmp)],
+                                   capture_output=True, text=True, env=env, cwd=str(VERIF), timeout=1800)
+                if p.returncode != 0:
+                    out = p.stdout + p.stderr
+                    bad.append(f"{pid} rc={p.returncode}: " + "; ".join(l[:160] for l in out.splitlines() if l.startswith(("FINDING", "ANALYSIS-ERROR")))[:400])
+            return {"name": v["name"], "property": "*", "rc": 1 if bad else 0, "wall": round(time.time() - t0, 1),
+                    "findings": bad[:6], "status": "ok" if not bad else "FALSE-ALARM"}
         p = subprocess.run([sys.executable, "-m", "gsverif", "check", v["property"], "--tier", v.get("tier", tier), "--repo", str(tmp)],
                            capture_output=True, text=True, env=env, cwd=str(VERIF), timeout=1800)
         out = p.stdout + p.stderr
@@ -78,7 +90,7 @@ def main(props, repo, jobs=16):
     corpus = load_corpus()
     if props:
         props = {p.upper() for p in props}
-        corpus = [v for v in corpus if v["property"] in props]
+        corpus = [v for v in corpus if v["property"] in props or (v["property"] == "*" and "TWINS" in props)]
     t0 = time.time()
     results = []
     with cf.ThreadPoolExecutor(max_workers=max(1, jobs // 4)) as ex:
